@@ -156,6 +156,11 @@ class MockTarget:
                             self.hash2tok.get(self.p._hash_func(o.contents), 10 ** 9) if o.type == "mock file" else 0])
         return sorted(out, key=lambda e: ([tuple(n) for n in e[0]]))
 
+    def snapshot(self):
+        """live objects filed under a path key of MockFS._objects: key -> (identity, path, type, contents, oid)"""
+        return {k: (id(o), o.path, o.type, o.contents, o.oid)
+                for k, o in self.p._mock_fs._objects.items() if k.startswith("/") and o.exists}
+
     # ---- run one op (model-shaped tuple) on the real provider -> canonical result
     def apply(self, op):
         p = self.p
@@ -558,14 +563,63 @@ def touched_queries(rng, op, res, gen):
     return qs
 
 
+def rename_subtree_failures(tgt, before, after, old, new):
+    """C16_rename_moves_subtree evaluated on the real MockProvider: `before`/`after` are MockTarget.snapshot()
+    around a successful rename of the live object at display path `old` (tuple) to `new` (tuple), under the
+    theorem's guard (sane flavour, new not "/", new not strictly inside old, old != new).
+    -> list of (law, detail)"""
+    norm = (lambda t: tuple(t)) if tgt.cs else (lambda t: tuple(n.lower() for n in t))
+    comps = lambda s_: tuple(n for n in s_.split("/") if n)
+    under = lambda q: len(q) >= len(old) and norm(q[:len(old)]) == norm(old)
+    bad = []
+    produced = {}
+    for key, ent in before.items():
+        q = comps(ent[1])
+        if under(q):
+            dest = tuple(new) + q[len(old):]
+            nk = pstr(norm(dest))
+            got = after.get(nk)
+            want_oid = pstr(dest) if tgt.oip else ent[4]
+            if got is None or got[0] != ent[0] or got[1] != pstr(dest) or got[2] != ent[2] or got[3] != ent[3] \
+                    or got[4] != want_oid:
+                bad.append(("rename_moves_subtree", dict(part="moved", was=ent[1], want=pstr(dest),
+                                                         got=None if got is None else [got[1], got[2], str(got[4])])))
+            produced[nk] = True
+        elif key != pstr(norm(new)):
+            if after.get(key) != ent:
+                bad.append(("rename_moves_subtree", dict(part="stays", path=ent[1])))
+    if norm(old) != norm(new):
+        for key, ent in after.items():
+            if under(comps(key)):
+                bad.append(("rename_moves_subtree", dict(part="old path free", path=ent[1])))
+    for key, ent in after.items():
+        if key not in produced and before.get(key) != ent:
+            bad.append(("rename_moves_subtree", dict(part="appears", path=ent[1])))
+    return bad
+
+
 def gen_sequence(rng, tgt, malformed, names):
     """-> (ops, impl_results, impl_events) generated while running the real provider"""
     g = Gen(rng, tgt, malformed, names)
+    g.subtree_failures, g.subtree_evals = [], 0
     n = rng.randint(1, 30)
     ops, results, events = [], [], []
 
     def do(op):
+        before = src = None
+        if op[0] == "rename" and isinstance(tgt, MockTarget) and (tgt.cs or not tgt.oip):
+            o = tgt.p._mock_fs._objects.get(tgt.dec_key(op[1]))
+            if o is not None and o.exists:
+                src = tuple(n_ for n_ in o.path.split("/") if n_)
+                before = tgt.snapshot()
         r = tgt.apply(op)
+        if before is not None and r[0] == 0:
+            new = tuple(op[2])
+            nrm = (lambda t: tuple(t)) if tgt.cs else (lambda t: tuple(x.lower() for x in t))
+            inside = len(new) > len(src) and nrm(new[:len(src)]) == nrm(src)
+            if new and not inside and src != new:
+                g.subtree_evals += 1
+                g.subtree_failures += rename_subtree_failures(tgt, before, tgt.snapshot(), src, new)
         ops.append(op)
         results.append(r)
         events.append(tgt.new_events())
@@ -922,7 +976,7 @@ def run(ctx):
     stats = dict(sequences=0, calls=0, op_kinds={}, err_kinds={}, ok_calls=0, unspecified=0,
                  size_classes={0: 0, 1: 0, 2: 0, 3: 0}, malformed_sequences=0, clean_sequences=0,
                  model_wf_states_checked=0, predicate_evals=0, predicate_failures_refuted_flavour={},
-                 corpus_cases=0, corpus_failing=0, connect_sequences=0, fs_sequences=0, fs_calls=0,
+                 corpus_cases=0, corpus_failing=0, rename_subtree_evals=0, connect_sequences=0, fs_sequences=0, fs_calls=0,
                  fs_hash_oid_missing_raises=0, fs_enotdir_reported_as_exists=0, phase_s={}, fs_inotify_events_seen=0, per_flavour={})
     samples = []
     if g is None:
@@ -983,6 +1037,13 @@ def run(ctx):
                     clean = clean and fl[0] == 1
                     if mres == [1, 5]:
                         stats["unspecified"] += 1
+                        if clean and (flavour[0] is False or flavour[1] is True):
+                            # C16_guarded_never_unspecified: impossible after clean (hence guarded) calls
+                            ctx.violation("the model answers 'unspecified' after a clean call sequence: %s"
+                                          % json.dumps([op_json(o) for o in b["ops"][:i + 1]])[:300],
+                                          dict(kind="model-unspecified", flavour=list(flavour),
+                                               ops=[op_json(o) for o in b["ops"][:i + 1]]),
+                                          no_input=True, theorem="C16_guarded_never_unspecified (the extracted model disagrees with the theorem)")
                         clean = False
                         break
                     if target_name == "fs":
@@ -1011,7 +1072,7 @@ def run(ctx):
                                           % json.dumps([op_json(o) for o in b["ops"][:i + 1]])[:300],
                                           dict(kind="model-wf", flavour=list(flavour),
                                                ops=[op_json(o) for o in b["ops"][:i + 1]]),
-                                          no_input=True, theorem="C16_prov_wf (monitored; bounded proof only)")
+                                          no_input=True, theorem="C16_wf_reachable_clean (the extracted model disagrees with the theorem)")
                             break
                 b["clean"] = clean
 
@@ -1062,7 +1123,8 @@ def run(ctx):
                 malformed = rng.random() < 0.15
                 tgt = MockTarget(*flavour)
                 ops, results, events, gen = gen_sequence(rng, tgt, malformed, NAMES + (DOT_NAMES if malformed else []))
-                agree = state_agreement_failures(tgt, gen) if si % 3 == 0 else []
+                agree = gen.subtree_failures + (state_agreement_failures(tgt, gen) if si % 3 == 0 else [])
+                stats["rename_subtree_evals"] += gen.subtree_evals
                 for q in final_queries(rng, gen, full=(si % 4 == 0)):
                     ops.append(q)
                     results.append(tgt.apply(q))
@@ -1159,7 +1221,7 @@ def run(ctx):
     cov["samples"] = samples
     cov["streams"] = stats
     cov["traces_validated_against_impl"] = stats["sequences"] + stats["fs_sequences"] + stats["connect_sequences"]
-    tb = ["Coq 8.16.1 kernel (coqc); vm_compute for the two _refuted witnesses and the Examples; no native_compute",
+    tb = ["Coq 8.16.1 kernel (coqc); vm_compute only for the refutation witnesses, the bounded C16_prov_wf_partial and the Examples (the unbounded wf / rename_moves_subtree / listdir theorems are by induction); no native_compute",
           "axioms per theorem as printed by Print Assumptions: " + (", ".join(cov.get("axioms_used", [])) or "none (closed under the global context)"),
           "hypothesis of C16_hash_equal_iff_bytes_equal: the data hash is injective (checked: no collision among the contents used, "
           "md5 for the mock, blake2b for the filesystem provider); contents are abstract tokens in the model",
